@@ -2,6 +2,7 @@ package core
 
 import (
 	"fmt"
+	"regexp"
 	"go/constant"
 	"go/token"
 	"go/types"
@@ -150,6 +151,54 @@ type Pather struct {
 	// Loads, when set, gives the path-sensitive value of loads from address-taken
 	// locals (filled by the path walker); memoisation is then per path.
 	Loads map[*ssa.UnOp]string
+	// Inline renders calls of same-package helpers that consist of a single
+	// return of one value as that value (parameters substituted), depth <= 3.
+	Inline bool
+	depth  int
+}
+
+var paramTok = regexp.MustCompile(`(^|[^A-Za-z0-9_#])p(\d+)\b`)
+
+// SubstParams replaces the parameter tokens p0,p1,… of a callee-relative path by
+// the caller's argument paths.
+func SubstParams(s string, actual []string) string {
+	return paramTok.ReplaceAllStringFunc(s, func(m string) string {
+		sub := paramTok.FindStringSubmatch(m)
+		var i int
+		fmt.Sscanf(sub[2], "%d", &i)
+		if i < len(actual) {
+			return sub[1] + actual[i]
+		}
+		return m
+	})
+}
+
+func (p *Pather) inlineHelper(x *ssa.Call, args []string) (string, bool) {
+	callee := x.Call.StaticCallee()
+	if callee == nil || len(callee.Blocks) == 0 || p.depth >= 3 || callee == p.fn {
+		return "", false
+	}
+	if callee.Pkg == nil || p.fn.Pkg == nil || callee.Pkg != p.fn.Pkg {
+		return "", false
+	}
+	var ret *ssa.Return
+	for _, b := range callee.Blocks {
+		for _, in := range b.Instrs {
+			if r, ok := in.(*ssa.Return); ok {
+				if ret != nil {
+					return "", false
+				}
+				ret = r
+			}
+		}
+	}
+	if ret == nil || len(ret.Results) != 1 {
+		return "", false
+	}
+	sub := NewPather(callee)
+	sub.Inline = true
+	sub.depth = p.depth + 1
+	return SubstParams(sub.Path(ret.Results[0]), args), true
 }
 
 // addrBase renders the base of a field/element address; a local that only holds
@@ -384,6 +433,11 @@ func (p *Pather) path(v ssa.Value) string {
 		var as []string
 		for _, a := range x.Call.Args {
 			as = append(as, p.Path(a))
+		}
+		if p.Inline {
+			if s, ok := p.inlineHelper(x, as); ok {
+				return s
+			}
 		}
 		return "call:" + name + "(" + strings.Join(as, ",") + ")"
 	case *ssa.Phi:
